@@ -64,6 +64,24 @@ Theorem undefined_name_rejected : forall tbl mods rs vs,
     forall had, resolve_ref tbl mods had rs = Some (None, [missing_error (st_mod (rs_site rs)) n l]).
 Proof. exact resolve_missing_lem. Qed.
 
+(* a resolved reference stands for an object (type, field, value, parameter), never for a module:
+   the name of an imported module by itself is rejected (fix bdb1a9e; before it the resolver bound
+   the reference to the module and dependency_checker raised KeyError) *)
+Theorem resolved_reference_is_not_a_module : forall tbl mods rs vs,
+  visible_scopes mods (rs_site rs) = Some vs -> NoDup vs -> scopes_exist tbl vs ->
+  r_local (rs_ref rs) = false ->
+  forall cn, resolve_ref tbl mods false rs = Some (Some cn, []) -> cn_path cn <> [].
+Proof. exact resolved_is_not_module_lem. Qed.
+
+Theorem module_as_value_rejected : forall tbl mods rs n l rest vs s st tgt,
+  r_names (rs_ref rs) = (n, l) :: rest -> visible_scopes mods (rs_site rs) = Some vs ->
+  search tbl (st_mod (rs_site rs)) (r_line (rs_ref rs)) n (current_scope (rs_site rs)) (r_local (rs_ref rs)) vs None []
+    = Some (Some (s, st), []) ->
+  tail_walk tbl st ((n, l) :: rest) = TOk tgt -> cn_path (sc_cn tgt) = [] ->
+  resolve_ref tbl mods false rs
+  = Some (None, [Err KModule (st_mod (rs_site rs)) (r_line (rs_ref rs)) (fst (last ((n, l) :: rest) ("", 0%N))) []]).
+Proof. exact module_as_value_rejected_lem. Qed.
+
 (* the dotted tail is the child relation *)
 Theorem dotted_tail_iff : forall tbl names st tgt,
   tail_walk tbl st names = TOk tgt <-> tail_rel tbl st (map fst names) tgt.
@@ -239,6 +257,13 @@ Theorem scope_chain_exists : forall tbl mods s m vs,
   scopes_exist tbl vs.
 Proof. exact visible_scopes_exist. Qed.
 
+(* references in module-level attributes (fix 99e8f3d): own scope = the module's scope *)
+Theorem module_level_scope_chain : forall mods f m,
+  find_module f mods = Some m ->
+  current_scope (Site f [] None) = CN f [] /\
+  visible_scopes mods (Site f [] None) = Some (CN f [] :: anonymous_imports m).
+Proof. exact module_level_chain_lem. Qed.
+
 Theorem own_scope_first_in_chain : forall mods s m vs,
   find_module (st_mod s) mods = Some m -> visible_scopes mods s = Some vs -> In (current_scope s) vs.
 Proof. exact current_scope_in_chain. Qed.
@@ -278,3 +303,10 @@ Example parameter_member_rejected :
   run_pass2 (w_par_input false) = Rejected2 [Err KNoncomposite "m.emb" 4 "p" []]
   /\ run_pass2 (w_par_input true) = Rejected2 [Err KNoncomposite "m.emb" 4 "v" []].
 Proof. exact (conj w_par_direct w_par_via_alias). Qed.
+
+(* a module-level attribute's reference is resolved in the module scope; an import alias used as
+   a value is rejected with its own error *)
+Example module_level_and_module_as_value :
+  run_pass1 (w_modv_input false) = Resolved1 [CN "m.emb" ["Bar"; "BAZ"]; CN "" ["UInt"]] []
+  /\ run_pass1 (w_modv_input true) = Rejected1 4 [Err KModule "m.emb" 5 "imp" []].
+Proof. exact (conj w_modv_attribute_resolved w_modv_alias_rejected). Qed.
